@@ -108,6 +108,9 @@ def wc_units(tier: str) -> List[Any]:
                 continue
             for how in ('return', 'call'):
                 units.append(((items, how, False), None))
+    for items in ((('done', 'ok'),), (('done', 'ok'), ('done', 'ok')), (('done', 'ok'), ('gate', 'ok'))):
+        units.append(((items, 'return', False), None))  # everything (or part) already complete when the wait is entered
+    units.append((((('gate', 'ok'),), 'return', False, 'while'), None))
     return units
 
 
